@@ -129,7 +129,8 @@ def _hoisted_locals(fd, log=None):
         for st in list(fd.body):
             name, parts = None, None
             if isinstance(st, ast.Assign) and len(st.targets) == 1 and isinstance(st.targets[0], ast.Name) and sto.get(st.targets[0].id) == 1 and \
-                    not isinstance(st.value, (ast.Constant, ast.Name)):
+                    (not isinstance(st.value, (ast.Constant, ast.Name)) or
+                     (isinstance(st.value, ast.Constant) and (st.value.value is None or isinstance(st.value.value, (bool, int))))):
                 name, parts = st.targets[0].id, [st.value]
             elif isinstance(st, ast.If) and len(st.body) == 1 and len(st.orelse) == 1 and all(
                     isinstance(b, ast.Assign) and len(b.targets) == 1 and isinstance(b.targets[0], ast.Name) for b in (st.body[0], st.orelse[0])) and \
@@ -213,6 +214,8 @@ def _hoisted_locals(fd, log=None):
                 if isinstance(e, ast.UnaryOp):
                     return isinstance(e.op, (ast.Not, ast.USub)) and pure(e.operand)
                 if isinstance(e, ast.BinOp):
+                    if isinstance(e.op, ast.Mult):        # a literal repeated / scaled: ' ' * tabsize
+                        return (isinstance(e.left, ast.Constant) or isinstance(e.right, ast.Constant)) and pure(e.left) and pure(e.right)
                     return isinstance(e.op, (ast.Add, ast.Sub)) and pure(e.left) and pure(e.right)
                 if isinstance(e, ast.BoolOp):
                     return all(pure(v) for v in e.values)
@@ -237,6 +240,333 @@ def _hoisted_locals(fd, log=None):
             break
         if not done:
             break
+
+
+def _block_locals(fd, log=None):
+    """`x = <slice / arithmetic / len() of names>` inside a nested block, x bound nowhere else and read only later in that block, the operands
+    neither re-bound nor changed between the binding and the end of the block, x itself never changed or given another name: x is a name for the
+    expression within the block (`rest = items[idx:]` hoisted out of an inner loop).  The expression is written where x is read."""
+    a = fd.args
+    params = {x.arg for x in a.posonlyargs + a.args + a.kwonlyargs} | ({a.vararg.arg} if a.vararg else set()) | ({a.kwarg.arg} if a.kwarg else set())
+    if any(isinstance(n, (ast.FunctionDef, ast.AsyncFunctionDef, ast.Lambda, ast.Global, ast.Nonlocal)) for n in ast.walk(fd) if n is not fd):
+        return
+    MUT = ('append', 'extend', 'insert', 'pop', 'remove', 'clear', 'sort', 'reverse', 'update', 'setdefault', 'popitem', 'add', 'discard')
+    SAFE = ('len', 'str', 'int', 'isinstance', 'bool', 'range', 'enumerate', 'min', 'max', 'sorted', 'list', 'tuple', 'any', 'all', 'zip', 'reversed')
+
+    def simple(e):
+        if isinstance(e, (ast.Constant, ast.Name)):
+            return isinstance(e, ast.Constant) or isinstance(e.ctx, ast.Load)
+        if isinstance(e, ast.Attribute):
+            return simple(e.value)
+        if isinstance(e, ast.Subscript):
+            sl = e.slice
+            parts = [sl.lower, sl.upper, sl.step] if isinstance(sl, ast.Slice) else [sl]
+            return simple(e.value) and all(p is None or simple(p) for p in parts)
+        if isinstance(e, ast.BinOp):
+            return isinstance(e.op, (ast.Add, ast.Sub)) and simple(e.left) and simple(e.right)
+        if isinstance(e, ast.Call):
+            return isinstance(e.func, ast.Name) and e.func.id == 'len' and len(e.args) == 1 and not e.keywords and simple(e.args[0])
+        return False
+
+    def root(e):
+        while isinstance(e, (ast.Attribute, ast.Subscript)):
+            e = e.value
+        return e.id if isinstance(e, ast.Name) else None
+
+    for _round in range(8):
+        sto = _stores(fd.body)
+        done = False
+        for holder in [n for n in _walk_no_defs(fd.body) if isinstance(n, (ast.If, ast.For, ast.While, ast.With, ast.Try))]:
+            for fld in ('body', 'orelse', 'finalbody'):
+                blk = getattr(holder, fld, None)
+                if not isinstance(blk, list):
+                    continue
+                for i, st in enumerate(blk):
+                    if not (isinstance(st, ast.Assign) and len(st.targets) == 1 and isinstance(st.targets[0], ast.Name)):
+                        continue
+                    name = st.targets[0].id
+                    if sto.get(name) != 1 or name in params or not isinstance(st.value, (ast.Subscript, ast.BinOp, ast.Call)) or not simple(st.value):
+                        continue
+                    if not any(isinstance(x, (ast.Subscript, ast.Call)) for x in ast.walk(st.value)):
+                        continue            # plain arithmetic on counters stays a local (it is usually a counter itself)
+                    later = [n for b in blk[i + 1:] for n in _walk_no_defs([b])]
+                    later_ids = {id(n) for n in later}
+                    loads = [n for n in _walk_no_defs(fd.body) if isinstance(n, ast.Name) and n.id == name and isinstance(n.ctx, ast.Load)]
+                    if not loads or any(id(n) not in later_ids for n in loads):
+                        continue
+                    ops = {n.id for n in ast.walk(st.value) if isinstance(n, ast.Name)}
+                    bad = False
+                    # what may not change the operands: everything between the binding and the last read; in the statement of the last read, a simple
+                    # assignment evaluates its right-hand side (the read) before it stores
+                    load_ids = {id(n) for n in loads}
+                    last_j = max(j_ for j_ in range(i + 1, len(blk)) if any(id(x_) in load_ids for x_ in _walk_no_defs([blk[j_]])))
+                    watched = [n for b in blk[i + 1:last_j] for n in _walk_no_defs([b])]
+                    lastst = blk[last_j]
+                    if isinstance(lastst, (ast.Assign, ast.AugAssign, ast.Return, ast.Expr)) and lastst.value is not None:
+                        watched += list(_walk_no_defs([lastst.value])) if isinstance(lastst.value, ast.AST) else []
+                        if isinstance(lastst, ast.AugAssign) and isinstance(lastst.target, ast.Name) and lastst.target.id in ops:
+                            bad = True
+                    else:
+                        watched += list(_walk_no_defs([lastst]))
+                    for n in watched:
+                        if isinstance(n, ast.Name) and isinstance(n.ctx, (ast.Store, ast.Del)) and n.id in ops:
+                            bad = True
+                        elif isinstance(n, (ast.Attribute, ast.Subscript)) and isinstance(n.ctx, (ast.Store, ast.Del)) and root(n) in ops | {name}:
+                            bad = True
+                        elif isinstance(n, ast.AugAssign) and isinstance(n.target, ast.Name) and n.target.id in ops | {name}:
+                            bad = True
+                        elif isinstance(n, ast.Call):
+                            if isinstance(n.func, ast.Attribute) and n.func.attr in MUT and root(n.func.value) in ops | {name}:
+                                bad = True
+                            if not (isinstance(n.func, ast.Name) and n.func.id in SAFE):
+                                for a_ in list(n.args) + [k.value for k in n.keywords]:
+                                    if isinstance(a_, ast.Name) and a_.id in ops and not isinstance(st.value, ast.Subscript):
+                                        bad = True
+                        elif isinstance(n, (ast.Assign, ast.Return, ast.Yield)) and isinstance(getattr(n, 'value', None), ast.Name) and n.value.id == name:
+                            bad = True          # x gets another name / leaves the function: it is an object of its own
+                        elif isinstance(n, (ast.List, ast.Tuple, ast.Set, ast.Dict)) and any(
+                                isinstance(x, ast.Name) and x.id == name for x in (n.elts if not isinstance(n, ast.Dict) else n.values)):
+                            bad = True
+                    if bad:
+                        continue
+                    blk[i + 1:] = [_Subst({name: st.value}).visit(b) for b in blk[i + 1:]]
+                    del blk[i]
+                    if not blk:
+                        blk.append(ast.copy_location(ast.Pass(), st))
+                    if log is not None:
+                        log.append('# block local %s read as %s in %s' % (name, ast.unparse(st.value), fd.name))
+                    done = True
+                    break
+                if done:
+                    break
+            if done:
+                break
+        if not done:
+            break
+
+
+def _const_str_locals(fd, log=None):
+    """Flow-sensitive propagation of string constants along the top-level statements of a function: after `x = <string literal, or a
+    concatenation of literals and such locals>` the reads of x are the literal, until x is stored again (anywhere, also inside a nested
+    block of a later statement).  Regular expressions assembled from shared pieces read like the literals they denote."""
+    a = fd.args
+    params = {x.arg for x in a.posonlyargs + a.args + a.kwonlyargs} | ({a.vararg.arg} if a.vararg else set()) | ({a.kwarg.arg} if a.kwarg else set())
+    if any(isinstance(n, (ast.FunctionDef, ast.AsyncFunctionDef, ast.Lambda, ast.Global, ast.Nonlocal)) for n in ast.walk(fd) if n is not fd):
+        return
+
+    def fold(e, env):
+        if isinstance(e, ast.Constant) and isinstance(e.value, str):
+            return e.value
+        if isinstance(e, ast.Name) and e.id in env:
+            return env[e.id]
+        if isinstance(e, ast.BinOp) and isinstance(e.op, ast.Add):
+            l_, r_ = fold(e.left, env), fold(e.right, env)
+            return None if l_ is None or r_ is None else l_ + r_
+        if isinstance(e, ast.JoinedStr):
+            out = ''
+            for v in e.values:
+                if isinstance(v, ast.Constant) and isinstance(v.value, str):
+                    out += v.value
+                elif isinstance(v, ast.FormattedValue) and v.conversion == -1 and v.format_spec is None and fold(v.value, env) is not None:
+                    out += fold(v.value, env)
+                else:
+                    return None
+            return out
+        return None
+
+    class Fold(ast.NodeTransformer):
+        def __init__(self, env):
+            self.env = env
+
+        def visit_BinOp(self, n):
+            v = fold(n, self.env)
+            if v is not None and not isinstance(n.left, ast.Constant) or (v is not None and not isinstance(n.right, ast.Constant)):
+                return ast.copy_location(ast.Constant(value=v), n)
+            if v is not None:
+                return ast.copy_location(ast.Constant(value=v), n)
+            return self.generic_visit(n)
+
+        def visit_JoinedStr(self, n):
+            v = fold(n, self.env)
+            return ast.copy_location(ast.Constant(value=v), n) if v is not None else self.generic_visit(n)
+
+        def visit_Name(self, n):
+            if isinstance(n.ctx, ast.Load) and n.id in self.env:
+                return ast.copy_location(ast.Constant(value=self.env[n.id]), n)
+            return n
+    env = {}
+    used = set()
+    new_body = []
+    for st in fd.body:
+        stored = {n.id for n in _walk_no_defs([st]) if isinstance(n, ast.Name) and isinstance(n.ctx, (ast.Store, ast.Del))}
+        top = st.targets[0].id if isinstance(st, ast.Assign) and len(st.targets) == 1 and isinstance(st.targets[0], ast.Name) else None
+        for k in list(env):
+            if k in stored and not (k == top and sum(1 for n in _walk_no_defs([st]) if isinstance(n, ast.Name) and n.id == k and isinstance(n.ctx, ast.Store)) == 1):
+                del env[k]
+        if env and any(isinstance(n, ast.Name) and n.id in env and isinstance(n.ctx, ast.Load) for n in _walk_no_defs([st])):
+            used |= {n.id for n in _walk_no_defs([st]) if isinstance(n, ast.Name) and n.id in env and isinstance(n.ctx, ast.Load)}
+            st = Fold(dict(env)).visit(st)
+            ast.fix_missing_locations(st)
+        if top is not None and top not in params:
+            v = fold(st.value, env)
+            if v is not None and not isinstance(st.value, ast.Constant):
+                st.value = ast.copy_location(ast.Constant(value=v), st.value)
+            if v is not None and len(v) >= 3:
+                env[top] = v
+            else:
+                env.pop(top, None)
+        new_body.append(st)
+    fd.body = new_body
+    if used and log is not None:
+        log.append('# string constants %s of %s written where they are read' % (', '.join(sorted(used)), fd.name))
+
+
+def _scalarise_list_local(fd, log=None):
+    """`L = [e0, e1, e2]`, L read (until it is bound again) only as `*L` in a call or as `L[k]` with a literal k: L is its elements.  Written as
+    one local per element (`L_0 = e0; ...`) in the place of the binding, `f(*L)` as `f(L_0, L_1, L_2)`.  L may be bound several times in
+    straight-line code (an unrolled loop): every binding is a literal list and owns the reads up to the next one."""
+    if any(isinstance(n, (ast.FunctionDef, ast.AsyncFunctionDef, ast.Lambda, ast.Global, ast.Nonlocal)) for n in ast.walk(fd) if n is not fd):
+        return
+    all_names = {n.id for n in ast.walk(fd) if isinstance(n, ast.Name)} | {a_.arg for a_ in ast.walk(fd) if isinstance(a_, ast.arg)}
+    nodes = list(_walk_no_defs(fd.body))
+    order = {id(n): k for k, n in enumerate(nodes)}
+    in_loop = set()
+    for lp in nodes:
+        if isinstance(lp, (ast.For, ast.While)):
+            in_loop |= {id(x) for x in ast.walk(lp)}
+    cands = {}
+    for n in nodes:
+        if isinstance(n, ast.Assign) and len(n.targets) == 1 and isinstance(n.targets[0], ast.Name):
+            cands.setdefault(n.targets[0].id, []).append(n)
+    for L, sites in cands.items():
+        stores = [n for n in nodes if isinstance(n, ast.Name) and n.id == L and isinstance(n.ctx, (ast.Store, ast.Del))]
+        if len(stores) != len(sites) or any(id(x) in in_loop for x in stores):
+            continue
+        if not all(isinstance(st.value, (ast.List, ast.Tuple)) and 1 <= len(st.value.elts) <= 8 and not any(isinstance(e_, ast.Starred) for e_ in st.value.elts)
+                   for st in sites):
+            continue
+        loads = [n for n in nodes if isinstance(n, ast.Name) and n.id == L and isinstance(n.ctx, ast.Load)]
+        if not loads:
+            continue
+        starred = {id(a_.value) for n in nodes if isinstance(n, ast.Call) for a_ in n.args
+                   if isinstance(a_, ast.Starred) and isinstance(a_.value, ast.Name) and a_.value.id == L}
+        indexed = {id(n.value): n.slice.value for n in nodes if isinstance(n, ast.Subscript) and isinstance(n.value, ast.Name) and n.value.id == L and
+                   isinstance(n.ctx, ast.Load) and isinstance(n.slice, ast.Constant) and isinstance(n.slice.value, int) and not isinstance(n.slice.value, bool)}
+        sites = sorted(sites, key=lambda st: order[id(st)])
+        # the binding that owns a read: the last one before it in program order (no binding sits in a loop)
+        owner = {}
+        ok = True
+        for ld in loads:
+            prev = [st for st in sites if max(order[id(x)] for x in ast.walk(st) if id(x) in order) < order[id(ld)]]
+            if not prev:
+                ok = False
+                break
+            st = prev[-1]
+            if id(ld) in starred:
+                owner[id(ld)] = st
+            elif id(ld) in indexed and 0 <= indexed[id(ld)] < len(st.value.elts):
+                owner[id(ld)] = st
+            else:
+                ok = False
+                break
+        if not ok:
+            continue
+        names = {}
+        clash = False
+        for k, st in enumerate(sites):
+            sfx = '' if len(sites) == 1 else '_%s' % 'abcdefgh'[k % 8]
+            names[id(st)] = ['%s%s_%d' % (L, sfx, e_) for e_ in range(len(st.value.elts))]
+            clash = clash or any(nm in all_names for nm in names[id(st)])
+        if clash:
+            continue
+
+        class R(ast.NodeTransformer):
+            def visit_Assign(self, n):
+                if id(n) in names:
+                    return [ast.copy_location(ast.Assign(targets=[ast.Name(id=nm, ctx=ast.Store())], value=self.visit(e_), type_comment=None), n)
+                            for nm, e_ in zip(names[id(n)], n.value.elts)]
+                return self.generic_visit(n)
+
+            def visit_Call(self, n):
+                self.generic_visit(n)
+                if any(isinstance(a_, ast.Starred) and id(a_.value) in owner and id(a_.value) in starred for a_ in n.args):
+                    args = []
+                    for a_ in n.args:
+                        if isinstance(a_, ast.Starred) and id(a_.value) in owner and id(a_.value) in starred:
+                            args.extend(ast.Name(id=nm, ctx=ast.Load()) for nm in names[id(owner[id(a_.value)])])
+                        else:
+                            args.append(a_)
+                    n.args = args
+                return n
+
+            def visit_Subscript(self, n):
+                if isinstance(n.value, ast.Name) and id(n.value) in owner and id(n.value) in indexed:
+                    return ast.copy_location(ast.Name(id=names[id(owner[id(n.value)])][indexed[id(n.value)]], ctx=ast.Load()), n)
+                return self.generic_visit(n)
+        fd.body = [x for b in fd.body for x in (lambda r_: r_ if isinstance(r_, list) else [r_])(R().visit(b))]
+        ast.fix_missing_locations(fd)
+        if log is not None:
+            log.append('# list local %s of %s written as its elements' % (L, fd.name))
+        return _scalarise_list_local(fd, log)
+
+
+class _ConstCond(ast.NodeTransformer):
+    """Tests decided by literals alone -- left behind when a helper was inlined with a literal argument (`sep=None`): `None is None`,
+    `None is not None`, `not True`, `True and x`; `if True: A else: B` is A, `a if False else b` is b."""
+    @staticmethod
+    def val(e):
+        if isinstance(e, ast.Constant) and (e.value is None or isinstance(e.value, bool)):
+            return ('k', e.value)
+        return None
+
+    def visit_Compare(self, n):
+        self.generic_visit(n)
+        if len(n.ops) == 1 and isinstance(n.ops[0], (ast.Is, ast.IsNot)):
+            a, b = self.val(n.left), self.val(n.comparators[0])
+            if a is not None and b is not None:
+                r = a[1] is b[1]
+                return ast.copy_location(ast.Constant(value=r if isinstance(n.ops[0], ast.Is) else not r), n)
+        return n
+
+    def visit_UnaryOp(self, n):
+        self.generic_visit(n)
+        if isinstance(n.op, ast.Not) and isinstance(n.operand, ast.Constant) and isinstance(n.operand.value, bool):
+            return ast.copy_location(ast.Constant(value=not n.operand.value), n)
+        return n
+
+    def visit_BoolOp(self, n):
+        self.generic_visit(n)
+        is_and = isinstance(n.op, ast.And)
+        vals = []
+        for v in n.values:
+            if isinstance(v, ast.Constant) and isinstance(v.value, bool):
+                if v.value is (not is_and):
+                    # `x and False` / `x or True`: decided only when nothing with an effect stands before it
+                    if not vals:
+                        return ast.copy_location(ast.Constant(value=v.value), n)
+                    vals.append(v)
+                # neutral element: dropped
+                continue
+            vals.append(v)
+        if not vals:
+            return ast.copy_location(ast.Constant(value=is_and), n)
+        if len(vals) == 1:
+            return vals[0]
+        n.values = vals
+        return n
+
+    def visit_IfExp(self, n):
+        self.generic_visit(n)
+        if isinstance(n.test, ast.Constant) and isinstance(n.test.value, bool):
+            return n.body if n.test.value else n.orelse
+        return n
+
+    def visit_If(self, n):
+        self.generic_visit(n)
+        if isinstance(n.test, ast.Constant) and isinstance(n.test.value, bool):
+            taken = n.body if n.test.value else n.orelse
+            return taken or ast.copy_location(ast.Pass(), n)
+        return n
 
 
 def _stores(stmts):
@@ -978,6 +1308,13 @@ class Inliner:
             # a comprehension over a literal tuple is the literal list of its elements; 'sep'.join of a literal list is a concatenation
             def visit_ListComp(self, n):
                 self.generic_visit(n)
+                it_ = n.generators[0].iter if len(n.generators) == 1 else None
+                if isinstance(it_, ast.Call) and isinstance(it_.func, ast.Name) and it_.func.id == 'range' and len(it_.args) == 1 and not it_.keywords and \
+                        isinstance(it_.args[0], ast.Constant) and isinstance(it_.args[0].value, int) and not isinstance(it_.args[0].value, bool) and \
+                        0 <= it_.args[0].value <= 8:
+                    n.generators[0].iter = ast.copy_location(ast.Tuple(elts=[ast.Constant(value=k_) for k_ in range(it_.args[0].value)], ctx=ast.Load()), it_)
+                    ast.fix_missing_locations(n.generators[0].iter)
+                    n.elt = self.visit(n.elt) if False else n.elt
                 if len(n.generators) == 1 and not n.generators[0].ifs and isinstance(n.generators[0].target, ast.Name) and \
                         isinstance(n.generators[0].iter, (ast.Tuple, ast.List)) and len(n.generators[0].iter.elts) <= 8 and \
                         not any(isinstance(e_, ast.Starred) for e_ in n.generators[0].iter.elts):
@@ -987,6 +1324,20 @@ class Inliner:
 
             def visit_GeneratorExp(self, n):
                 return self.generic_visit(n)
+
+            def visit_BinOp(self, n):
+                self.generic_visit(n)
+                # arithmetic on integer literals; a literal list repeated a literal number of times
+                def ci(e_):
+                    return e_.value if isinstance(e_, ast.Constant) and isinstance(e_.value, int) and not isinstance(e_.value, bool) else None
+                a_, b_ = ci(n.left), ci(n.right)
+                if a_ is not None and b_ is not None and isinstance(n.op, (ast.Add, ast.Sub, ast.Mult)) and abs(a_) < 10 ** 6 and abs(b_) < 10 ** 6:
+                    v_ = a_ + b_ if isinstance(n.op, ast.Add) else a_ - b_ if isinstance(n.op, ast.Sub) else a_ * b_
+                    return ast.copy_location(ast.Constant(value=v_), n)
+                if isinstance(n.op, ast.Mult) and isinstance(n.left, ast.List) and b_ is not None and 0 <= b_ * len(n.left.elts) <= 8 and \
+                        all(isinstance(e_, (ast.Constant, ast.Name)) for e_ in n.left.elts):
+                    return ast.copy_location(ast.List(elts=[astcopy(e_) for _k in range(b_) for e_ in n.left.elts], ctx=ast.Load()), n)
+                return n
 
             def visit_Assign(self, n):
                 # `a, b, c = (f(x) for x in (p, q, r))`: unpacking consumes the generator at once, like the list
@@ -1104,6 +1455,7 @@ class Inliner:
             S().visit(tree)
             J().visit(tree)
             T().visit(tree)
+            _ConstCond().visit(tree)
             ast.fix_missing_locations(tree)
             for fd in [n for n in ast.walk(tree) if isinstance(n, ast.FunctionDef)]:
                 # local tables: a name assigned once, a literal tuple / list of tuples, only ever iterated
@@ -1131,7 +1483,10 @@ class Inliner:
                 _search_loop_unroll(fd, self.log)
                 _fallback_split(fd, self.log)
                 _guard_return(fd, self.log)
+                _const_str_locals(fd, self.log)
+                _scalarise_list_local(fd, self.log)
                 _hoisted_locals(fd, self.log)
+                _block_locals(fd, self.log)
                 _single_use_temp(fd, self.log)
             F().visit(tree)
             _drop_pass(tree)
@@ -1229,7 +1584,10 @@ class Inliner:
         self.inline()
         self.unbound_calls()
         self.join_form()
+        n_before = len(self.log)
         self.simplify()
+        if len(self.log) != n_before:        # a rewrite (an unrolled loop, a constant written out) may have uncovered literal forms: once more
+            self.simplify()
         # the normal forms may have uncovered further helper calls (a helper bound to a local first: `h = __class__._h; ... h(x)`): one more round
         n_before = len(self.log)
         self.inline()
@@ -1301,7 +1659,11 @@ def _groups_desugar(fd):
                 names = [x.id for x in st.targets[0].elts]
                 rest = stmts[i + 1:]
                 sto = _stores(rest)
-                if mv not in sto and not any(n_ in sto for n_ in names):
+                inside_ = {id(y_) for x_ in rest for y_ in ast.walk(x_)}
+                all_in_rest = all(id(x_) in inside_ for x_ in _walk_no_defs(fd.body)
+                                  if isinstance(x_, ast.Name) and x_.id in names and isinstance(x_.ctx, ast.Load))
+                if mv not in sto and not any(n_ in sto for n_ in names) and all_in_rest and _stores(fd.body).get(mv, 0) <= 1 and \
+                        all(_stores(fd.body).get(n_, 0) == 1 for n_ in names):
                     env = {n_: ast.Call(func=ast.Attribute(value=ast.Name(id=mv, ctx=ast.Load()), attr='group', ctx=ast.Load()),
                                         args=[ast.Constant(value=k_ + 1)], keywords=[]) for k_, n_ in enumerate(names)}
                     for j in range(i + 1, len(stmts)):
@@ -1309,6 +1671,13 @@ def _groups_desugar(fd):
                         ast.fix_missing_locations(stmts[j])
                     del stmts[i]
                     continue
+                # otherwise: one binding per group (the unpacking succeeds only when the pattern has exactly that many groups)
+                stmts[i:i + 1] = [ast.copy_location(ast.Assign(targets=[ast.Name(id=n_, ctx=ast.Store())], value=ast.Call(
+                    func=ast.Attribute(value=ast.Name(id=mv, ctx=ast.Load()), attr='group', ctx=ast.Load()), args=[ast.Constant(value=k_ + 1)], keywords=[]),
+                    type_comment=None), st) for k_, n_ in enumerate(names)]
+                for x_ in stmts[i:i + len(names)]:
+                    ast.fix_missing_locations(x_)
+                continue
             if isinstance(st, ast.Assign) and len(st.targets) == 1 and isinstance(st.targets[0], ast.Name) and _group_expr(st.value) is not None:
                 # x = m.group(k) (or `m.group(k) or ' '`, `not m.group(k)` ...): a plain name for an expression over the groups of one match
                 mv = _group_expr(st.value)
@@ -1339,7 +1708,9 @@ def _groups_desugar(fd):
                         return False
                     inside = {id(y_) for r_ in cands for x_ in r_ for y_ in ast.walk(x_)}
                     return all(id(x_) in inside for x_ in _walk_no_defs(fd.body) if isinstance(x_, ast.Name) and x_.id == nm and isinstance(x_.ctx, ast.Load))
-                if mv not in sto and nm not in sto and (whole.get(nm, 0) == 1 or covered()):
+                inside_ = {id(y_) for x_ in rest for y_ in ast.walk(x_)}
+                all_in_rest = all(id(x_) in inside_ for x_ in _walk_no_defs(fd.body) if isinstance(x_, ast.Name) and x_.id == nm and isinstance(x_.ctx, ast.Load))
+                if mv not in sto and nm not in sto and ((whole.get(nm, 0) == 1 and all_in_rest) or covered()):
                     env = {nm: st.value}
                     for j in range(i + 1, len(stmts)):
                         stmts[j] = _Subst(env).visit(stmts[j])
